@@ -1,0 +1,23 @@
+// Copyright (c) 2024, Intel Corporation.
+// SPDX-License-Identifier: BSD-3-Clause
+
+//go:build verif
+// +build verif
+
+package cpu
+
+import (
+	"os"
+	"strconv"
+)
+
+// Verification hook (build tag "verif" only): FASTGO_VERIF_ARCHLEVEL=<n>
+// overrides the detected acceleration level before any dependent package
+// runs its own init and selects its encoders/decoders.
+func init() {
+	if s := os.Getenv("FASTGO_VERIF_ARCHLEVEL"); s != "" {
+		if n, err := strconv.Atoi(s); err == nil && n >= 0 && n <= 4 {
+			ArchLevel = n
+		}
+	}
+}
